@@ -82,21 +82,56 @@ func Verify(stump Stump, delHashes []Hash, proof Proof) ([]int, error) {
 	if err != nil {
 		return nil, err
 	}
-	rootIndexes := make([]int, 0, len(rootCandidates))
-	for i := range stump.Roots {
-		if len(rootCandidates) > len(rootIndexes) &&
-			stump.Roots[len(stump.Roots)-(i+1)] == rootCandidates[len(rootIndexes)] {
+	if len(stump.Roots) != int(numRoots(stump.NumLeaves)) {
+		return nil, fmt.Errorf("StumpVerify fail. Have %d roots but %d leaves have %d roots",
+			len(stump.Roots), stump.NumLeaves, numRoots(stump.NumLeaves))
+	}
 
-			rootIndexes = append(rootIndexes, len(stump.Roots)-(i+1))
+	// Each root candidate must match the root of the tree that its targets are in.
+	// Matching it against just any root would accept a hash at a position in the
+	// wrong tree.
+	rootIndexes, err := targetRootIndexes(proof.Targets, stump.NumLeaves)
+	if err != nil {
+		return nil, err
+	}
+	if len(rootCandidates) != len(rootIndexes) {
+		err := fmt.Errorf("StumpVerify fail. Invalid proof. Have %d root candidates "+
+			"but the targets are in %d trees", len(rootCandidates), len(rootIndexes))
+		return nil, err
+	}
+	for i, rootIndex := range rootIndexes {
+		if stump.Roots[rootIndex] != rootCandidates[i] {
+			err := fmt.Errorf("StumpVerify fail. Invalid proof. Calculated root %s "+
+				"doesn't match root %d", rootCandidates[i], rootIndex)
+			return nil, err
 		}
 	}
 
-	if len(rootCandidates) != len(rootIndexes) {
-		// The proof is invalid because some root candidates were not
-		// included in `roots`.
-		err := fmt.Errorf("StumpVerify fail. Invalid proof. Have %d roots but only "+
-			"matched %d roots", len(rootCandidates), len(rootIndexes))
-		return nil, err
+	return rootIndexes, nil
+}
+
+// targetRootIndexes returns the indexes of the roots of the trees that the targets are in.
+// The indexes are ordered from the lowest tree to the highest tree as that is the order
+// calculateHashes returns the root candidates in.
+func targetRootIndexes(targets []uint64, numLeaves uint64) ([]int, error) {
+	hasTarget := make([]bool, numRoots(numLeaves))
+	for _, target := range targets {
+		if !inForest(target, numLeaves, TreeRows(numLeaves)) {
+			return nil, fmt.Errorf("invalid proof. Position %d doesn't exist in an "+
+				"accumulator with %d leaves", target, numLeaves)
+		}
+		tree, _, _, err := DetectOffset(target, numLeaves)
+		if err != nil {
+			return nil, err
+		}
+		hasTarget[tree] = true
+	}
+
+	rootIndexes := make([]int, 0, len(hasTarget))
+	for i := len(hasTarget) - 1; i >= 0; i-- {
+		if hasTarget[i] {
+			rootIndexes = append(rootIndexes, i)
+		}
 	}
 
 	return rootIndexes, nil
